@@ -14,6 +14,8 @@ C == ToSet(T.cands)
 P == BagOf(T.bag)
 (* the dictionary the statement prescribes: (winner, loser) |-> margin, both directions |-> 0 for a pairwise tie *)
 ExpectedDict == {<<a, b, Margin(P, a, b)>> : a, b \in C} \ {x \in {<<a, b, Margin(P, a, b)>> : a, b \in C} : x[1] = x[2] \/ x[3][1] < 0}
+H2H(a, b) == RAdd(SumRat(P, {r \in DOMAIN P : RanksAbove(r, a, b)}),
+                  RDiv(SumRat(P, {r \in DOMAIN P : a \notin Listed(r) /\ b \notin Listed(r)}), R(2)))
 LoggedDict == {<<x[1], x[2], Rat2(x[3])>> : x \in ToSet(T.dict)}
 Clause ==
   IF T.error # "" THEN "Error:" \o T.error
@@ -24,6 +26,10 @@ Clause ==
   ELSE IF T.hascw /\ ~(\A b \in C \ {T.cw} : Beats(P, T.cw, b)) THEN "CondorcetWinner"
   ELSE IF ~T.hascw /\ T.cw # "ValueError" THEN "CondorcetWinnerError"
   ELSE IF T.hascycles # HasCycle(P, C) THEN "HasCondorcetCycles"
+  (* head2head_count(a, b) on a graph built with the default ballot length: the weight that prefers a to b, a ballot that lists neither *)
+  (* counting half for each (it is completed by every order of the missing candidates)                                              *)
+  ELSE IF T.h2h # <<>> /\ {<<x[1], x[2], Rat2(x[3])>> : x \in ToSet(T.h2h)} # {<<a, b, H2H(a, b)>> : a, b \in C} \ {y \in {<<a, b, H2H(a, b)>> : a, b \in C} : y[1] = y[2]}
+       THEN "HeadToHead"
   ELSE ""
 TInit == tid \in 1..Len(Traces) /\ done = FALSE
 Advance == /\ ~done
